@@ -1,3 +1,5 @@
+//go:build llir
+
 package main
 
 // IR generation for the eBPF programs of the repository under test. The IR is regenerated from the repository's
